@@ -407,6 +407,9 @@ class AggregatedFrame(ProtocolDataUnit):
                 (pdu_size,) = struct.unpack_from('!H', data, offset)
             except struct.error:
                 raise DecodeError("aggregated PDU length field error in AGF")
+            header = bytearray(data[offset+2:offset+4])
+            if len(header) == 2 and (header[0] << 2 | header[1] >> 6) & 15 == 2:
+                raise DecodeError("AGF PDU must not contain another AGF PDU")
             agf_pdu.append(decode(data, offset+2, pdu_size))
             offset, size = offset + 2 + pdu_size, size - 2 - pdu_size
         return agf_pdu
